@@ -10,7 +10,7 @@ case = (saver, max_retries, parts, pre, wfaults, cfaults)
 
 result = (exception or None, final state of the target, state after every dump call, number of dump calls,
           Context.locked, outcome of a follow-up job on the same context, what reading the target returns or None
-          when it is not read)."""
+          when it is not read, the raw file names in the target directory)."""
 import atexit
 import itertools
 import os
@@ -46,7 +46,7 @@ ASSUMPTIONS = [
     'pickle is a black box: the bytes pickle.dumps produces for a partition are given to the model in the case',
     'a failing write is an exception raised by Local.dump before it starts, at open(), or from the stream while '
     'writing (torn file); faults of os.makedirs itself and faults after the last byte are not injected',
-    'part names sort in index order (part-%05d, fewer than 100000 partitions)',
+    'fewer than 100000 partitions (beyond that part-%05d names stop sorting by index; hypothesis valid_name of the name-order theorem)',
 ]
 TRUSTED = ['translator/kernels/c09.py (statement-shape classifier for the two savers and Context.runJob)',
            'py/faultfs.py (fault injector: Local.dump wrapper, failing io.open, torn stream, raising partition function)']
@@ -118,7 +118,8 @@ def impl(case):
                 read = (c2.textFile(target) if saver == TEXT else c2.pickleFile(target)).collect()
             except Exception as e:  # pylint: disable=broad-except
                 read = Err(type(e).__name__)
-        return (outcome, final, hist, ff.calls, locked, follow, read)
+        names = sorted(os.listdir(target), key=lambda x: x.encode()) if os.path.isdir(target) else []
+        return (outcome, final, hist, ff.calls, locked, follow, read, names)
     finally:
         shutil.rmtree(d, ignore_errors=True)
 
@@ -141,7 +142,7 @@ def oracle(case, result):
     site = 'saveAsTextFile' if saver == TEXT else 'saveAsPickleFile'
     if isinstance(result, Err):
         return (f'{site}:harness', f'could not observe: {result}')
-    outcome, final, hist, calls, locked, follow, read = result
+    outcome, final, hist, calls, locked, follow, read, names = result
     flat = [x for p in parts for x in _elements(saver, p)]
     # the context remains usable, whatever happened
     if locked or follow is not None:
@@ -287,7 +288,7 @@ def generate(rng, tier):
                     cases.append((saver, 2, parts, pre, [(0, rng.choice([BEFORE, MKDIR, TORN]), 1)], []))
                     cases.append((saver, 1, parts, pre, [], [(0, 1)]))
     # random plans
-    for _ in range(700 if quick else 12000):
+    for _ in range(700 if quick else 8000):
         saver = rng.choice((TEXT, PICKLE))
         n = rng.choice([1, 2, 2, 3, 3, 4, 5, 6, 8]) if not quick else rng.choice([1, 2, 2, 3, 3, 4, 5])
         m = rng.choice([1, 1, 2, 2, 3, 4])
